@@ -29,11 +29,11 @@ META = {
         'crc_ccitt / UDFTag.record and the remaining descriptor classes are not under function-level contracts (their effect is checked through the independent reader on the scripts only)',
         'totals over histories (file and directory counts in the integrity descriptor); files larger than 1 GiB are covered at function level only (FileEntryNew), not end to end',
     ],
-    'bounded': ['5 edit scripts', 'FidPlacementStep name lengths (quick: 5 values; thorough: 0..254)'],
+    'bounded': ['6 edit scripts + random UDF histories', 'FidPlacementStep name lengths (quick: 5 values; thorough: 0..254)'],
 }
 
 MANIFEST = {
-    'level_text': 'Bounded scenarios executed by the verifier on the real code with SYMBOLIC file contents: for five UDF edit scripts an independent ECMA-167/UDF reader (no pycdlib code) starting only from the recognition sequence and the two anchors reaches the file set and recovers exactly the implied tree, names (Latin-1 and UTF-16), symlink targets and file bytes; every descriptor tag (identifier, checksum, CRC, location), information length and allocation descriptor is valid; UDF objects are disjoint and inside the partition; UDF and ISO9660 names share their data sectors. Deductive, for all inputs: the descriptor placement step of _udf_assign_extents (tag location is the block holding the first byte, whatever the offset and name length), the allocation descriptors of UDFFileEntry.new for every 32-bit length (non-empty, full but the last, summing to the length), descriptor lengths and name limits.',
+    'level_text': 'Bounded scenarios executed by the verifier on the real code with SYMBOLIC file contents: for six UDF edit scripts and three random UDF edit histories (thorough: 30), fresh and after reopen + edit, an independent ECMA-167/UDF reader (no pycdlib code) starting only from the recognition sequence and the two anchors reaches the file set and recovers exactly the implied tree, names (Latin-1 and UTF-16), symlink targets and file bytes; every descriptor tag (identifier, checksum, CRC, location), information length and allocation descriptor is valid; UDF objects are disjoint and inside the partition; UDF and ISO9660 names share their data sectors. Deductive, for all inputs: the descriptor placement step of _udf_assign_extents (tag location is the block holding the first byte, whatever the offset and name length), the allocation descriptors of UDFFileEntry.new for every 32-bit length (non-empty, full but the last, summing to the length), descriptor lengths and name limits.',
     'level_note': 'Scenario-level only (bounded scripts), symbolic in all file contents. Trusted: pyvc executing the real mastering code (cross-checked byte-identical with CPython), the independent reader. Function-level contracts exist for placement, allocation descriptors and identifier descriptors; the other descriptor classes are checked through the reader only.',
     'design_ref': 'DESIGN.md section 4 C10',
 }
